@@ -374,6 +374,8 @@ class StmtMixin:
 
         def f(it, s):
             it = self.unopt(s, it)
+            if isinstance(it, Ref) and hasattr(self.container_models.get(s.get(it).get("__kind__")), "for_loop"):
+                return self.container_models[s.get(it)["__kind__"]].for_loop(self, s, n, it)
             if isinstance(it, Ref) and s.get(it).get("__kind__") == "glist":
                 return self.hooks.glist_for(self, s, n, it)
             items = self.iter_items(it, s)
